@@ -108,13 +108,15 @@ func zipTree(c *lib.Ctx) {
 			}
 			ops = append(ops, op{Op: "ascend", K: lib.Q(p), V: fmt.Sprint(limit)})
 			var got []lib.KV
-			for node := range tree.AscendPrefix(p) {
+			seq := tree.AscendPrefix(p)
+			for node := range seq {
 				if limit >= 0 && len(got) >= limit {
 					break
 				}
 				got = append(got, lib.KV{K: node.Key, V: node.Value})
 			}
 			want := ref.Scan(p)
+			full := want
 			if limit >= 0 && len(want) > limit {
 				want = want[:limit]
 			}
@@ -123,6 +125,17 @@ func zipTree(c *lib.Ctx) {
 			}
 			if !lib.EqualKVs(got, want) {
 				c.Fail("ziptree-ascend", ops, "AscendPrefix(%q) limit %d = %v, reference %v", p, limit, lib.FmtKVs(got), lib.FmtKVs(want))
+			}
+			// the same sequence value iterated once more (after a complete pass or after an early break) starts
+			// from the beginning again and yields everything: an iter.Seq is not a one-shot cursor
+			if r.Intn(2) == 0 {
+				var again []lib.KV
+				for node := range seq {
+					again = append(again, lib.KV{K: node.Key, V: node.Value})
+				}
+				if !lib.EqualKVs(again, full) {
+					c.Fail("ziptree-ascend", ops, "AscendPrefix(%q): a second pass over the same sequence (first pass limit %d) = %v, reference %v", p, limit, lib.FmtKVs(again), lib.FmtKVs(full))
+				}
 			}
 		}
 	}
